@@ -12,7 +12,7 @@ import tempfile
 
 import numpy as np
 
-from .. import cover, grospec, ref
+from .. import bus, cover, grospec, ref
 
 LEVEL = 'exploration'
 JOBS = {'quick': 2, 'thorough': 16}
@@ -42,13 +42,14 @@ def install_line_length_monitor(ctx):
     from gaddlemaps.parsers import GroFile
     real = GroFile.__dict__['writeline']
 
-    def writeline(self, atomlist):
+    def writeline(self, *args, **kwargs):
+        atomlist, = bus.seen(('atomlist',), args, kwargs)
         try:
             ready = getattr(self, '_init_position', None) is not None
             before = self._file.tell() if ready else None
         except Exception:  # noqa
             before = None
-        out = real(self, atomlist)
+        out = real(self, *args, **kwargs)
         try:
             if before is not None:
                 delta = self._file.tell() - before
